@@ -721,81 +721,13 @@ pub fn child_main(_args: &[String]) {
     }
 }
 
-fn unhex(s: &str) -> Vec<u8> {
-    (0..s.len() / 2).map(|i| u8::from_str_radix(&s[2 * i..2 * i + 2], 16).unwrap_or(0)).collect()
-}
-
-struct Worker {
-    child: std::process::Child,
-    stdin: std::process::ChildStdin,
-    rx: std::sync::mpsc::Receiver<String>,
-    errlog: String,
-    pub restarts: usize,
-}
-
-impl Worker {
-    fn spawn(errlog: &str) -> Worker {
-        use std::io::BufRead;
-        let err = std::fs::File::create(errlog).expect("errlog");
-        let mut child = std::process::Command::new(std::env::current_exe().unwrap())
-            .arg("ingest-child")
-            .stdin(std::process::Stdio::piped())
-            .stdout(std::process::Stdio::piped())
-            .stderr(err)
-            .spawn()
-            .expect("spawn ingest-child");
-        let stdin = child.stdin.take().unwrap();
-        let stdout = child.stdout.take().unwrap();
-        let (tx, rx) = std::sync::mpsc::channel();
-        std::thread::spawn(move || {
-            for l in std::io::BufReader::new(stdout).lines() {
-                match l {
-                    Ok(l) => {
-                        if tx.send(l).is_err() {
-                            break;
-                        }
-                    }
-                    Err(_) => break,
-                }
-            }
-        });
-        Worker { child, stdin, rx, errlog: errlog.to_string(), restarts: 0 }
-    }
-
-    /// one request; a dead or stuck child is an outcome
-    fn call(&mut self, line: &str) -> Value {
-        use std::io::Write;
-        let sent = writeln!(self.stdin, "{}", line).and_then(|_| self.stdin.flush());
-        let r = if sent.is_ok() { self.rx.recv_timeout(std::time::Duration::from_secs(20)) } else { Err(std::sync::mpsc::RecvTimeoutError::Disconnected) };
-        match r {
-            Ok(l) => serde_json::from_str(&l).unwrap_or(json!({"outcome":"garbled","answered":false,"detail":l})),
-            Err(e) => {
-                let hung = matches!(e, std::sync::mpsc::RecvTimeoutError::Timeout);
-                if hung {
-                    let _ = self.child.kill();
-                }
-                let status = self.child.wait().map(|s| format!("{}", s)).unwrap_or_default();
-                let mut tail = std::fs::read_to_string(&self.errlog).unwrap_or_default();
-                if tail.len() > 300 {
-                    tail = tail[tail.len() - 300..].to_string();
-                }
-                let errlog = self.errlog.clone();
-                let restarts = self.restarts + 1;
-                *self = Worker::spawn(&errlog);
-                self.restarts = restarts;
-                json!({"outcome": if hung { "hang" } else { "abort" }, "answered": false, "detail": format!("{} {}", status, tail.replace('\n', " "))})
-            }
-        }
-    }
-}
-
 pub fn main(args: &[String]) {
     let cases = read_ndjson(&arg(args, "--cases").expect("--cases"));
     let outp = arg(args, "--out").expect("--out");
     let mut out = Trace::create(&outp);
     let mut rng = Rng::new(arg_u64(args, "--seed", 1));
     let nrand = arg_u64(args, "--rand", 2000);
-    let mut w = Worker::spawn(&format!("{}.child-stderr", outp));
+    let mut w = Worker::spawn("ingest-child", &format!("{}.child-stderr", outp), 20, 0);
     let seeds = seeds();
     let mut nfeeds = 0u64;
     let mut feed = |w: &mut Worker, out: &mut Trace, k: &str, b: &[u8], genv: Value| {
